@@ -40,6 +40,9 @@ func SmallSpecs() []*Spec {
 		DHCP6PD("2001:db8::/53", 56),
 		DHCP6PD("2001:db8:0:8000::/49", 51),
 		DHCP6PD("2001:db8::/60", 62),
+		DHCP6PD("2001:db8:0:1::/64", 67),
+		DHCP6PD("2001:db8:0:1:8000::/66", 68),
+		DHCP6PD("2001:db8::1:0/125", 128),
 		PPPoE("10.0.0.0/29", "10.0.0.1"),
 		PPPoE("10.0.0.8/30", "10.0.0.9"),
 		Peer("10.0.0.0/29", "10.0.0.1"),
@@ -216,7 +219,7 @@ func Alphabet(c Caps, nsubs int, faults bool) []Sym {
 		}
 	}
 	if c.Specific {
-		out = append(out, Sym{Op{K: "specific", Sub: subNames[0], V: "0"}, 0}, Sym{Op{K: "specific", Sub: subNames[1], V: "0"}, 1}, Sym{Op{K: "specific", Sub: subNames[0], V: "1"}, 0})
+		out = append(out, Sym{Op{K: "specific", Sub: subNames[0], V: "0"}, 0}, Sym{Op{K: "specific", Sub: subNames[1], V: "0"}, 1}, Sym{Op{K: "specific", Sub: subNames[0], V: "1"}, 0}, Sym{Op{K: "specific", Sub: subNames[0], V: "past"}, 0})
 	}
 	if c.RelVal {
 		out = append(out, Sym{Op{K: "relval", V: "0"}, -1}, Sym{Op{K: "relval", V: "2"}, -1})
@@ -231,7 +234,7 @@ func Alphabet(c Caps, nsubs int, faults bool) []Sym {
 		out = append(out, Sym{Op{K: "reapply", Sub: subNames[0]}, 0})
 	}
 	if c.Move {
-		out = append(out, Sym{Op{K: "move", Sub: subNames[0], V: "-1"}, 0}, Sym{Op{K: "move", Sub: subNames[1], V: "0"}, 1})
+		out = append(out, Sym{Op{K: "move", Sub: subNames[0], V: "-1"}, 0}, Sym{Op{K: "move", Sub: subNames[1], V: "0"}, 1}, Sym{Op{K: "move", Sub: subNames[1], V: "past"}, 1})
 	}
 	if faults && c.Fault {
 		out = append(out, Sym{Op{K: "fail", V: "1"}, -1})
@@ -322,7 +325,13 @@ func RandomHistory(s *Spec, c Caps, rng *rand.Rand, n int, faults bool) []Op {
 		case x < 86 && c.Epoch:
 			out = append(out, Op{K: "epoch"})
 		case x < 89 && c.Specific:
-			out = append(out, Op{K: "specific", Sub: sub(rng.IntN(nsubs)), V: fmt.Sprint(rng.IntN(64))})
+			v := fmt.Sprint(rng.IntN(64))
+			if y := rng.IntN(12); y == 0 {
+				v = "past"
+			} else if y == 1 {
+				v = "before"
+			}
+			out = append(out, Op{K: "specific", Sub: sub(rng.IntN(nsubs)), V: v})
 		case x < 91 && c.RelVal:
 			out = append(out, Op{K: "relval", V: fmt.Sprint(rng.IntN(64))})
 		case x < 93 && c.Reload:
@@ -330,7 +339,13 @@ func RandomHistory(s *Spec, c Caps, rng *rand.Rand, n int, faults bool) []Op {
 		case x < 95 && c.Reapply:
 			out = append(out, Op{K: "reapply", Sub: sub(pick())})
 		case x < 96 && c.Move:
-			out = append(out, Op{K: "move", Sub: sub(pick()), V: fmt.Sprint(rng.IntN(64) - 8)})
+			v := fmt.Sprint(rng.IntN(64) - 8)
+			if y := rng.IntN(10); y == 0 {
+				v = "past"
+			} else if y == 1 {
+				v = "before"
+			}
+			out = append(out, Op{K: "move", Sub: sub(pick()), V: v})
 		case x < 98 && faults && c.Fault:
 			out = append(out, Op{K: "fail", V: "1"})
 		default:
